@@ -195,6 +195,29 @@ func c04Trees(c *core.Ctx) {
 		}
 		param := fn.Params[2]
 		scopes := findTxScopes(fn)
+		// a rewind removes rows and writes none: a row added here (a "processed up to" marker, say) moves the resume point
+		// past blocks of the new branch that were never downloaded
+		onlyDel, nStmt := true, 0
+		core.Instrs(fn, func(i ssa.Instruction) {
+			w := sqlWriteOf(i)
+			if w == nil {
+				return
+			}
+			nStmt++
+			if w.what != "Exec" && w.what != "ExecContext" {
+				onlyDel = false
+				return
+			}
+			q := ""
+			for _, a := range core.AsCall(i).Args {
+				if a.Type().String() == "string" {
+					q = stmtText(a, 0)
+				}
+			}
+			tk := sqlTokensUpper(q)
+			onlyDel = onlyDel && len(tk) > 0 && tk[0] == "DELETE"
+		})
+		c.Decide(onlyDel && nStmt > 0, rule, pkg+".(*processor).Reorg#only-deletes", fn.Pos(), fmt.Sprintf("every statement the rewind executes itself is a DELETE (%d statements)", nStmt))
 		// the DELETE FROM block statement
 		var del ssa.Instruction
 		core.Instrs(fn, func(i ssa.Instruction) {
@@ -413,17 +436,18 @@ func init() {
 	register(&Property{
 		ID:          "C04",
 		Level:       "other",
-		Explanation: "Decides the structural necessary conditions of 'a reorg leaves the node as if the dropped blocks had never been seen': C04-cascade — the final schema of each of the three stores is computed from the embedded migrations (files and order read from the Go AST; unlisted .sql files and unknown DDL fail) and every table other than block references block(num) ON DELETE CASCADE; tree root rows carry block_num and rht is content-addressed; C04-fk — the only sql.Open is db.NewSQLiteDB whose DSN enables foreign keys and every store handle comes from it; C04-trees — each Reorg binds `DELETE FROM block WHERE num >= $1` to firstReorgedBlock and rewinds every tree-typed field of its processor (computed from the struct type) with the same tx and argument on every committing path, and Tree.Reorg deletes root rows with block_num >= $1; C04-atomic — Reorg transaction pairing, every write through the tx, and a failed write/rewind step always ends the reorg with its error (lastgersync: single statement); C04-frontier — initCache rewrites both in-memory frontier fields from the last stored root on every successful return (with TX-mem's mismatch-rebuild obligation this forces a rebuild after leaves were removed; the index comparison itself is value-level). Observational equivalence of all queries for all histories and SQLite's cascade semantics are not decided. Added after round 7: C04-rewind (driver acknowledges only after Reorg()==nil and passes the notified block unchanged, shared with C06) and TX-err on the Reorg functions (a failed rewind step ends the reorg with its error).",
+		Explanation: "Decides the structural necessary conditions of 'a reorg leaves the node as if the dropped blocks had never been seen': C04-cascade — the final schema of each of the three stores is computed from the embedded migrations (files and order read from the Go AST; unlisted .sql files and unknown DDL fail) and every table other than block references block(num) ON DELETE CASCADE; tree root rows carry block_num and rht is content-addressed; C04-fk — the only sql.Open is db.NewSQLiteDB whose DSN enables foreign keys and every store handle comes from it; C04-trees — each Reorg binds `DELETE FROM block WHERE num >= $1` to firstReorgedBlock and rewinds every tree-typed field of its processor (computed from the struct type) with the same tx and argument on every committing path, and Tree.Reorg deletes root rows with block_num >= $1; C04-atomic — Reorg transaction pairing, every write through the tx, and a failed write/rewind step always ends the reorg with its error (lastgersync: single statement); C04-frontier — initCache rewrites both in-memory frontier fields from the last stored root on every successful return (with TX-mem's mismatch-rebuild obligation this forces a rebuild after leaves were removed; the index comparison itself is value-level). Observational equivalence of all queries for all histories and SQLite's cascade semantics are not decided. Added after round 7: C04-rewind (driver acknowledges only after Reorg()==nil and passes the notified block unchanged, shared with C06) and TX-err on the Reorg functions (a failed rewind step ends the reorg with its error). Added after round 9: C04-notify (shared with C06-notify), Reorg#only-deletes (C04-trees), db.(*Tx).Commit#failure-reported and #callbacks-run (TX-mem).",
 		Rules: []Rule{
 			{ID: "C04-tree", Floor: 9, Run: func(c *core.Ctx) { storeRule(c, "C04-tree") }, Text: "(shared with C08-store) node storage tolerates rows left by a dropped fork without skipping the rest of the branch"},
 			{ID: "C04-resume", Floor: 3, Run: shared("C04-resume", c05Restart), Text: "(shared with C05-restart) after a reorg the download restarts at lastProcessed+1, whatever block the detector named"},
 			{ID: "C04-cascade", Floor: 13, Run: c04Cascade, Text: "[SCHEMA] every per-block table cascades from block(num); tree tables accounted"},
 			{ID: "C04-rewind", Floor: 5, Run: shared("C04-rewind", c06Rewind), Text: "(shared with C06-rewind/C06-value) the driver acknowledges a reorg only after Reorg returned nil and passes the notified block unchanged"},
+			{ID: "C04-notify", Floor: 9, Run: shared("C04-notify", c06Notify), Text: "(shared with C06-notify) the detector forgets the dropped blocks only after the subscriber confirmed the rewind"},
 			{ID: "C04-fk", Floor: 4, Run: c04FK, Text: "[WHO]+const: single sql.Open with _foreign_keys=on; stores use it"},
-			{ID: "C04-trees", Floor: 6, Run: c04Trees, Text: "[WHO]+[PROV]+[DOM] every tree field rewound with (tx, firstReorgedBlock) before Commit; block delete bound to it"},
+			{ID: "C04-trees", Floor: 9, Run: c04Trees, Text: "[WHO]+[PROV]+[DOM] every tree field rewound with (tx, firstReorgedBlock) before Commit; block delete bound to it"},
 			{ID: "C04-destructive", Floor: 15, Run: c04Destructive, Text: "[WHO] block processing only inserts; a DELETE/UPDATE in the ProcessBlock cone is not undone by a reorg (2 known findings)"},
 			{ID: "C04-atomic", Floor: 12, Run: c04Atomic, Text: "[TX] Reorg pairing, write-through, and no carried-on failure of a rewind step"},
-			{ID: "C04-frontier-mem", Floor: 6, Run: c07TxMem, Text: "[TX] (shared with C07 TX-mem) frontier writes under the rollback registration; mismatch rebuilds"},
+			{ID: "C04-frontier-mem", Floor: 9, Run: c07TxMem, Text: "[TX] (shared with C07 TX-mem) frontier writes under the rollback registration; mismatch rebuilds"},
 			{ID: "C04-frontier", Floor: 3, Run: c04Frontier, Text: "[DOM] initCache rewrites lastIndex and lastLeftCache on every successful return"},
 		},
 	})
